@@ -115,10 +115,15 @@ THEvent == /\ IsEvent("h.event") /\ Known(Rec.sid)
 \* a rejected event never reaches the handler
 TEvMw == /\ IsEvent("h.evmw")
          /\ Rec.nameOK /\ Rec.argsOK
-         /\ LET k == <<Rec.sid, Rec.tag>> IN
-              mwev' = [x \in DOMAIN mwev \cup {k} |-> IF x = k THEN [n |-> (IF k \in DOMAIN mwev THEN mwev[k].n ELSE 0) + 1,
-                                                                       rej |-> Rec.reject] ELSE mwev[x]]
-         /\ (IF <<Rec.sid, Rec.tag>> \in DOMAIN mwev THEN ~mwev[<<Rec.sid, Rec.tag>>].rej /\ Rec.i = mwev[<<Rec.sid, Rec.tag>>].n + 1 ELSE Rec.i = 1)
+         /\ LET k == <<Rec.sid, Rec.tag>>
+                seen == k \in DOMAIN mwev
+                cur == IF seen THEN mwev[k] ELSE [n |-> 0, rej |-> FALSE] IN
+              \* a pass over the chain starts at 1 - the first, or another one (the chain may run once per
+              \* handler of the event) after the previous pass ended: rejected, or through the whole chain -
+              \* and continues in order only while nothing rejected
+              /\ IF Rec.i = 1 THEN (~seen \/ cur.rej \/ cur.n = Rec.chain)
+                              ELSE (seen /\ ~cur.rej /\ Rec.i = cur.n + 1)
+              /\ mwev' = [x \in DOMAIN mwev \cup {k} |-> IF x = k THEN [n |-> Rec.i, rej |-> Rec.reject] ELSE mwev[x]]
          /\ UNCHANGED <<S, cfg, inflight>>
 TEvHandler == /\ IsEvent("h.evhandler")
               /\ LET k == <<Rec.sid, Rec.tag>> IN
